@@ -99,6 +99,19 @@ func openQ4(path string, hdr *headerV0) (*q4, error) {
 		return nil, err
 	}
 
+	// Q4 file has no header of its own and short reads are served as tail padding, so a file left
+	// partially written by a crash must be refused here, or it would silently yield wrong shares.
+	odsSize := hdr.SquareSize() / 2
+	expectedSize := int64(hdr.ShareSize() * odsSize * odsSize)
+	info, err := f.Stat()
+	if err == nil && info.Size() != expectedSize {
+		err = fmt.Errorf("file size mismatch: expected %d, got %d", expectedSize, info.Size())
+	}
+	if err != nil {
+		f.Close()
+		return nil, err
+	}
+
 	return &q4{
 		hdr:  hdr,
 		file: f,
